@@ -214,6 +214,11 @@ func c11Passive(c *Ctx, cs *Case) {
 // c11Freshness: an array literal makes new arrays at every level each time it is evaluated, however constant it looks
 func c11Freshness() []string {
 	return []string{
+		// a declaration list: a later initialiser sees (and aliases) the array an earlier name of the list holds
+		Lines(K["var"]+" a = [1, 2, 3], b = a;", "b[0] = 9;", Print("a"), K["var"]+" c = "+BI("append", "a", "4")+", d = c, e = "+BI("remove", "d", "0")+";", "d[1] = 7;", Print("c"), Print("e"), For(K["var"]+" n = "+BI("len", "a")+", i = n - 1;", "i >= 0", "i = i - 1", "{ "+Print("a[i]")+" }")),
+		Lines(Var("row", "[5, 5, 5]"), Fun("mk", "", " "+K["var"]+" row = [0, 0, 0], view = row; view[1] = 5; "+Ret("[row, view]")+" "), Print("mk()"), Print("row")),
+		// the value of a call is an array like any other: indexed, written and passed on directly
+		Lines(Var("a", "[1, 2, 3]"), Print(BI("append", "a", "7")+"[3]"), Print(BI("remove", "a", "0")+"[0]"), Fun("pick", "g, i", " "+Ret("g[i]")+" "), Var("g", "[[1, 2], [3, 4]]"), "pick(g, 0)[1] = 9;", Print("g"), Fun("holder", "", " "+Ret("{items: a}")+" "), "holder().items[2] = 30;", Print("a"), Print(BI("len", BI("append", "a", "1"))+" + "+BI("append", "a", "1", "2")+"[4]"), Print("pick(g, 1)[0] + pick(g, 0)[1]")),
 		// a loop-body local named like an outer array variable / parameter, the loop left by থামো / চালিয়ে_যাও from a nested block:
 		// afterwards the outer name denotes the outer array again (and its aliases see what is written through it)
 		Lines(Var("cell", "[9, 9, 9]"), Var("home", "cell"), Var("queue", "[[1, 1], [0, 0], [2, 2]]"), Var("second", "queue[1]"), Var("steps", "0"),
